@@ -249,7 +249,7 @@ func schemaLemmas(prog *Program) []*lemmaQuery {
 	if prog.schema != nil {
 		detail = strings.Join(prog.schema.TypeProblems, "; ")
 	}
-	return []*lemmaQuery{structural("every column of CREATE_TABLE_STATEMENT is declared TEXT, BLOB or INTEGER with binary collation (exact storage and comparison), and the script sets no pragma that switches off journalling, synchronisation or isolation", "internal/app/subsystems/aio/store/sqlite:CREATE_TABLE_STATEMENT", ok, detail)}
+	return []*lemmaQuery{structural("every column of CREATE_TABLE_STATEMENT is declared TEXT, BLOB or INTEGER with binary collation (exact storage and comparison), sort ids are AUTOINCREMENT (never reused), and the script sets no pragma that switches off journalling, synchronisation or isolation", "internal/app/subsystems/aio/store/sqlite:CREATE_TABLE_STATEMENT", ok, detail)}
 }
 
 // schemaAgreementLemmas (C17): the Postgres handlers are verified against the table model built from the SQLite
@@ -406,6 +406,8 @@ func extraObligations(prog *Program, prop, tier string) []*lemmaQuery {
 		out = append(out, searchShape(prog, pkg, "SCHEDULE_SEARCH_STATEMENT", false)...)
 	}
 	out = append(out, pagingLemmas(prog)...)
+	// the paging lemma's premise "sort ids are unique and never reused" rests on the schema
+	out = append(out, schemaLemmas(prog)...)
 	return out
 }
 
